@@ -17,26 +17,43 @@ type ModbusTCPAssembler struct {
 func (m *ModbusTCPAssembler) ReceiveRead(ctx context.Context, received []byte, bytesRead int) (response []byte, closeConnection bool) {
 	m.received.Write(received)
 
-	n, err := packet.LooksLikeModbusTCP(m.received.Bytes(), false)
-	if err == packet.ErrTCPDataTooShort {
-		return nil, false // wait for more data to arrive
-	} else if err != nil {
-		return err.(*packet.ErrorParseTCP).Bytes(), false
+	// single read can contain more than one packet (client is free to send next request before it has read the
+	// response of previous one) or only a part of the packet. Every complete packet in buffer is answered, in order.
+	for {
+		buffered := m.received.Bytes()
+		n, err := packet.LooksLikeModbusTCP(buffered, false)
+		if err == packet.ErrTCPDataTooShort {
+			return response, false // wait for more data to arrive
+		} else if err == packet.ErrIsNotTCPPacket {
+			return append(response, err.(*packet.ErrorParseTCP).Bytes()...), false
+		}
+		if len(buffered) < n {
+			return response, false // start of the packet looks valid but we need to wait for the rest of it to arrive
+		}
+		// packet is consumed from buffer even when we can not handle it, so the next packet is not affected by it
+		data := m.received.Next(n)
+		if err != nil { // unsupported function code
+			response = append(response, err.(*packet.ErrorParseTCP).Bytes()...)
+			continue
+		}
+		response = append(response, m.handle(ctx, data)...)
 	}
+}
 
-	p, err := packet.ParseTCPRequest(m.received.Next(n))
+func (m *ModbusTCPAssembler) handle(ctx context.Context, data []byte) []byte {
+	p, err := packet.ParseTCPRequest(data)
 	if err != nil {
-		return err.(*packet.ErrorParseTCP).Bytes(), false
+		return err.(*packet.ErrorParseTCP).Bytes()
 	}
 
 	resp, err := m.Handler.Handle(ctx, p)
 	if err != nil {
 		var target *packet.ErrorParseTCP
 		if errors.As(err, &target) {
-			return target.Bytes(), false
+			return target.Bytes()
 		}
-		return packet.NewErrorParseTCP(packet.ErrUnknown, err.Error()).Bytes(), false
+		return packet.NewErrorParseTCP(packet.ErrUnknown, err.Error()).Bytes()
 	}
 
-	return resp.Bytes(), false
+	return resp.Bytes()
 }
